@@ -15,9 +15,10 @@ EXTENDS Integers, Sequences, FiniteSets, TLC, Json, IOUtils
 (* source forms (numbers as in harness/sources.hpp) *)
 VEC_L == 1   VEC_R == 2   ARR_L == 3   CARR_L == 4   LIST_L == 5   LIST_R == 6
 GEN_R == 7   PTR == 8     VEC_IT == 9  LIST_IT == 10 MOVE_IT == 11
-Forms == 1..11
+REV_IT == 12        \* std::reverse_iterator over a std::vector: random access, but NOT contiguous in iteration order
+Forms == 1..12
 RangeForms    == {VEC_L, VEC_R, ARR_L, CARR_L, LIST_L, LIST_R, GEN_R}
-IteratorForms == {PTR, VEC_IT, LIST_IT, MOVE_IT}        \* need a FixedSize parameter: the count comes from it
+IteratorForms == {PTR, VEC_IT, LIST_IT, MOVE_IT, REV_IT}        \* need a FixedSize parameter: the count comes from it
 RvalueForms   == {VEC_R, LIST_R, MOVE_IT}               \* the items may (and for non-trivial types must) be moved from
 StoredForms   == Forms \ {GEN_R}                         \* forms whose items live in a container we can inspect
 
@@ -40,7 +41,8 @@ Applicable(varying, f, c, n) ==
   /\ (varying = 1) => f \in RangeForms
   /\ f = CARR_L => n >= 1
 
-Stored(c, n) == [i \in 1..n |-> Conv(c, Items(n)[i])]
+\* items are consumed in iteration order: a reverse iterator delivers them back to front
+Stored(f, c, n) == [i \in 1..n |-> Conv(c, Items(n)[IF f = REV_IT THEN n + 1 - i ELSE i])]
 MovedFrom(f, c) == f \in RvalueForms /\ NonTrivial(c)
 SourceAfter(f, c, n) == IF MovedFrom(f, c) THEN [i \in 1..n |-> 0] ELSE Items(n)
 Moves(f, c, n)  == [i \in 1..n |-> IF MovedFrom(f, c) THEN 1 ELSE 0]
@@ -65,7 +67,7 @@ JudgeCase(e) ==
   ELSE
     Bad(Applicable(e.varying, e.form, e.conv, e.n) /\ e.ran = 1, "DRIVER_PRECONDITION")
     \cup Bad(e.count = e.n, "COUNT")
-    \cup Bad(e.stored = Stored(e.conv, e.n), "STORED")
+    \cup Bad(e.stored = Stored(e.form, e.conv, e.n), "STORED")
     \cup (IF e.hasafter = 1 THEN Bad(e.after = SourceAfter(e.form, e.conv, e.n), "SOURCE_STATE") ELSE {})
     \cup (IF Counted(e.conv)
           THEN IF e.form = GEN_R
